@@ -27,7 +27,7 @@ CASE_TIMEOUT = {"quick": 900, "thorough": 3000}
 
 
 def enumerate_cases(tier, seed):
-    yield from _gen.cases(tier, seed)
+    yield from _gen.cases(tier, seed, long=True)
     th = tier == "thorough"
     units = rot(UNITS_DIR, seed, 11 if th else 2) + rot(UNITS_SYM[:2], seed, 1)
     for iso in ("[<][13CH2]C[>]", "[<]C([2H])([2H])O[>]", "[<]C[35Cl][>]" if False else "[<]C(Cl)C[>]"):
